@@ -8,12 +8,10 @@ package mpegts
 //
 // The multiplier is the literal 90000 (the MPEG-TS system clock) at every call site, so only the divisor ranges
 // over the clock rates 1..2^32.
+// Each helper registers itself from its own file (c24_h_*_test.go), so that a tree in which a helper was
+// removed or renamed still lets the driver build the other helpers of the package (optional harness files).
+var c24Registry []c24Helper
+
 func c24Helpers() (string, []c24Helper) {
-	return "internal/protocols/mpegts", []c24Helper{
-		{
-			name:   "mpegts.multiplyAndDivide",
-			fn:     multiplyAndDivide,
-			shapes: []c24Shape{c24TicksTo90k},
-		},
-	}
+	return "internal/protocols/mpegts", c24Registry
 }
